@@ -614,6 +614,7 @@ func namesQuoted(text, name string) bool {
 // ---------------------------------------------------------------- C14
 
 func runC14(c *Ctx) {
+	runC14InformerCache(c)
 	n := 600
 	if c.Thorough {
 		n = 8000
